@@ -576,7 +576,7 @@ func exec(planJSON []byte, run *core.Run) {
 		// history: the receiver is asked for a context for the same encapsulated key once more
 		// (a restarted worker, a second reader). It starts at sequence number zero and shares
 		// nothing with the first opener.
-		if len(recs) > 0 && p.Seed%2 == 0 {
+		if len(recs) > 0 && p.Start == "" && bytes.Equal(recs[0].seq, make([]byte, 12)) {
 			op2, err := rcv.Setup(append([]byte{}, enc...))
 			if err != nil {
 				run.Violate("hpke.Receiver.Setup", "error-on-second-setup", "%v", err)
